@@ -179,6 +179,7 @@ func frameOracles(cs *exCase, run *exRun, transfers []transferObs, digest0, dige
 	var nodes []oNode
 	var nodeStack []int
 	jWant := map[jKey]map[uint64]bool{}
+	jSeq := map[jKey]map[uint64][][]byte{} // value journal: per variable and call, the journaled values with immediate repeats collapsed
 	curNode := func() int {
 		if len(nodeStack) == 0 {
 			return -1
@@ -405,6 +406,15 @@ func frameOracles(cs *exCase, run *exRun, transfers []transferObs, digest0, dige
 						jWant[k] = map[uint64]bool{}
 					}
 					jWant[k][uint64(idx)] = true
+					if e.Op == 0xe6 && e.HasJVal {
+						if jSeq[k] == nil {
+							jSeq[k] = map[uint64][][]byte{}
+						}
+						l := jSeq[k][uint64(idx)]
+						if len(l) == 0 || !bytes.Equal(l[len(l)-1], e.JVal) {
+							jSeq[k][uint64(idx)] = append(l, e.JVal)
+						}
+					}
 				}
 			}
 			n := len(e.Stack)
@@ -507,6 +517,23 @@ func frameOracles(cs *exCase, run *exRun, transfers []transferObs, digest0, dige
 		for idx := range got {
 			if !want[idx] {
 				add("C10", "account %x slot %s: entries filed under call %d, where no frame journaled this variable (journaling calls: %v)", k.acct[17:], slot.Hex(), idx, keysOfB(want))
+			}
+		}
+		// ... and per call the recorded list is the chronological sequence of journaled values, immediate repeats collapsed
+		// (a reference-typed variable is indexed at offset 0: when the reference journal also wrote to this slot and type the
+		// list mixes decoded strings with packed fields — left to the model correspondence)
+		mixed := false
+		for k2 := range jWant {
+			if !k2.hasOff && k2.acct == k.acct && k2.slot.Eq(&k.slot) && k2.ty == k.ty && k.hasOff && k.off.IsZero() {
+				mixed = true
+			}
+		}
+		for idx, seq := range jSeq[k] {
+			if mixed {
+				break
+			}
+			if rec, ok := got[idx]; ok && !equalLists(rec, seq) {
+				add("C10", "account %x slot %s offset %v: under call %d the frames journaled %x, the recorded list is %x", k.acct[17:], slot.Hex(), off, idx, seq, rec)
 			}
 		}
 	}
